@@ -1,6 +1,6 @@
 """C01 — exit status is zero exactly when every selected test ultimately passed."""
 import vlib
-from props import common, disp
+from props import common, mix, disp
 
 THM = "NextestModel.Thm.C01"
 GEN = ["tables"]
@@ -23,7 +23,7 @@ def expected_final(req):
     return "Success"
 
 
-def run(seed, tier, replay=None):
+def run_p(seed, tier, replay=None):
     r, items, model = disp.run_disp(seed, tier)
     violations = []
     nt = set()
@@ -48,5 +48,9 @@ def run(seed, tier, replay=None):
         "samples": samples, "traces": len(items), "dist": r.dist,
         "violations": violations, "broken": r.broken, "impl_failures": r.impl_failures,
     }
+
+
+def run(seed, tier, replay=None):
+    return mix.merge(run_p(seed, tier, replay), mix.check([mix.mon_exit], seed, tier))
 
 KNOWN_MATCHERS = {}
